@@ -68,14 +68,37 @@ func makeRejected(c *Chooser, p *Plan, class string) bool {
 			rc.Timeout = Pick(c, "abc", "-1", "1.5", "1e3", "5 5", "0x10", "ten")
 		}
 	case "bad-leading-message":
-		// a Connect GET that has to be re-issued as a Connect GET in another codec: the message is needed for the request line
-		if rc.Form != FormConnectGet {
+		if rc.Form == FormConnectGet {
+			// a Connect GET that has to be re-issued as a Connect GET in another codec: the message is needed for the request line
+			rc.Codec = "json"
+			rc.Compression = ""
+			rc.Msgs = []MsgSpec{{RawPayload: []byte(Pick(c, "{", "not json", "{\"nope\":1", "[1]"))}}
+			svc.Protocols, svc.Codecs = []string{ProtoConnect}, []string{"proto"}
+			break
+		}
+		if rc.Form == FormREST {
 			return false
 		}
-		rc.Codec = "json"
+		// an RPC client whose first message does not decode, to a service that only targets REST: the request line of the
+		// backend request is built from that message. Zero bytes are a message in the binary codec but not a JSON document.
+		if isRestBound(rc.Method) {
+			// keep the method
+		} else if rc.Form == FormConnectUnary {
+			rc.Method = Pick(c, "RestAll", "RestAllNSE")
+		} else {
+			return false // the bound methods are unary: only forms that carry unary calls
+		}
 		rc.Compression = ""
-		rc.Msgs = []MsgSpec{{RawPayload: []byte(Pick(c, "{", "not json", "{\"nope\":1", "[1]"))}}
-		svc.Protocols, svc.Codecs = []string{ProtoConnect}, []string{"proto"}
+		rc.Codec = Pick(c, "json", "json", "proto")
+		bad := Pick(c, "", "{", "not json", "[1]")
+		if rc.Codec == "proto" {
+			bad = Pick(c, "\xff", "\x0a\x05ab", "\x08")
+		}
+		rc.Msgs = []MsgSpec{{RawPayload: []byte(bad), HasRaw: true}}
+		svc.Protocols = []string{ProtoREST}
+		if svc.Codecs != nil && !contains(svc.Codecs, "json") {
+			svc.Codecs = append(svc.Codecs, "json")
+		}
 	case "stream-type-mismatch":
 		switch rc.Form {
 		case FormConnectUnary:
@@ -281,7 +304,17 @@ func stillRejected(p *Plan, class string) bool {
 		_, ok := refTimeoutNanos(hdr, rc.Timeout)
 		return rc.Timeout != "" && !ok
 	case "bad-leading-message":
-		return len(rc.Msgs) == 1 && rc.Msgs[0].RawPayload != nil && rc.Form == FormConnectGet
+		if len(rc.Msgs) != 1 || rc.Msgs[0].RawPayload == nil {
+			return false
+		}
+		if rc.Form == FormConnectGet {
+			return true
+		}
+		svc := &p.Config.Services[0]
+		if md == nil || len(svc.Protocols) != 1 || svc.Protocols[0] != ProtoREST || rc.Compression != "" {
+			return false
+		}
+		return refUnmarshal(rc.Codec, rc.Msgs[0].RawPayload, newMessageFor(md.Input())) != nil
 	case "stream-type-mismatch":
 		if md == nil {
 			return false
